@@ -10,6 +10,7 @@ import (
 	"os"
 	"path/filepath"
 	"runtime"
+	"runtime/debug"
 	"strings"
 	"time"
 
@@ -297,6 +298,9 @@ func reopen(dir string, segSize int32, commit int64, upTo int64) (res reopenResu
 	defer func() {
 		if p := recover(); p != nil {
 			res.panicMsg = fmt.Sprint(p)
+			if os.Getenv("VERIF_DEBUG_STACKS") != "" {
+				fmt.Fprintf(os.Stderr, "PANIC %v\n%s\n", p, debug.Stack())
+			}
 		}
 	}()
 	w, err := wal.NewWalFactory(&wal.FactoryOptions{BaseWalDir: dir, Retention: time.Hour, SegmentSize: segSize, SyncData: true}).
